@@ -254,7 +254,21 @@ impl Drop for Own {
         if ok || RAW_MEMORY.load(Ordering::Relaxed) {
             unsafe { ManuallyDrop::drop(&mut self.cell) };
         }
+        // an element type whose destructor panics (armed by the harness for one id, once): the drop
+        // has been recorded and the memory released, then the destructor unwinds
+        if ok && DROP_PANIC.with(|d| d.get()) == Some(self.id) {
+            DROP_PANIC.with(|d| d.set(None));
+            panic!("the destructor of element id {} panics", self.id);
+        }
     }
+}
+
+thread_local! {
+    static DROP_PANIC: std::cell::Cell<Option<u32>> = std::cell::Cell::new(None);
+}
+/// make the destructor of the element with this id panic (once), or disarm with `None`
+pub fn arm_drop_panic(id: Option<u32>) {
+    DROP_PANIC.with(|d| d.set(id));
 }
 
 impl Clone for Own {
